@@ -188,9 +188,16 @@ GiveUp(x) ==
 (* a reply that passed every check (against the server this round contacted *)
 (* and the GCA key it read at its beginning) is applied under c.mu:         *)
 (* migration or merge, files first, then memory                             *)
+(* The reply was verified against the GCA key read at the round's beginning. *)
+(* If another round applied a migration meanwhile, that key is no longer the *)
+(* client's GCA and the reply is discarded (DiscardStale); before the repair *)
+(* it was applied all the same (deviation "stalegca"): lists and migration   *)
+(* orders signed by the former GCA were adopted.                             *)
+StillTrusted(x) == rnd[x].gca = cgca \/ "stalegca" \in CDefects
 ApplyReply(x, r) ==
   /\ rnd[x].phase = "picking" /\ rnd[x].attempts > 0 /\ mutex = "free"
   /\ ParseOutcome(r, [server |-> rnd[x].cur, gca |-> rnd[x].gca, dev |-> r.key]) = "ok"
+  /\ StillTrusted(x)
   /\ IF r.mig.present /\ r.mig.newgca # cgca
      THEN LET m == FoldServers(<<>>, r.servers) IN
           /\ cgca' = r.mig.newgca /\ cid' = r.mig.newid /\ csrv' = m
@@ -200,6 +207,13 @@ ApplyReply(x, r) ==
           /\ UNCHANGED <<cgca, cid>>
   /\ rnd' = [rnd EXCEPT ![x] = IdleR]
   /\ UNCHANGED <<primary, mutex>>
+
+DiscardStale(x, r) ==
+  /\ rnd[x].phase = "picking" /\ rnd[x].attempts > 0 /\ mutex = "free"
+  /\ ParseOutcome(r, [server |-> rnd[x].cur, gca |-> rnd[x].gca, dev |-> r.key]) = "ok"
+  /\ ~StillTrusted(x)
+  /\ rnd' = [rnd EXCEPT ![x] = IdleR]
+  /\ UNCHANGED <<cgca, cid, csrv, primary, cdisk, mutex>>
 
 (* restart: identity and list come back from the files; some non-banned     *)
 (* server becomes primary (Close waits for the rounds in flight)            *)
